@@ -579,7 +579,7 @@ class Interp:
         if isinstance(f, PyBound):
             return self.host_call(f.f, [self, f.obj] + list(args), kwargs)
         if isinstance(f, PyClassMethod):
-            return self.host_call(f.f, [self] + list(args), kwargs)
+            return self.host_call(f.f, [self, f.cls] + list(args), kwargs)
         if isinstance(f, type) and f in self.type_calls:
             return self.type_calls[f](self, *args, **kwargs)
         if isinstance(f, StubClass) and hasattr(f, 'make'):
